@@ -753,7 +753,7 @@ class ResultMessage(_MessageType):
 
     def recv_results_rows(self, f, protocol_version, user_type_map, result_metadata, column_encryption_policy):
         self.recv_results_metadata(f, user_type_map)
-        column_metadata = self.column_metadata or result_metadata
+        column_metadata = self.column_metadata if self.column_metadata is not None else result_metadata
         rowcount = read_int(f)
         rows = [self.recv_row(f, len(column_metadata)) for _ in range(rowcount)]
         self.column_names = [c[2] for c in column_metadata]
